@@ -254,7 +254,11 @@ def getattr_(o, name):
             return SAbs('enum_name', o.idx, str)
         if name == '__class__':
             return o.cls
-        d, _ = class_lookup(o.cls, name)
+        try:
+            d, _ = class_lookup(o.cls, name)
+        except AttributeError:
+            # the member has no such attribute: a program AttributeError, exactly as for a concrete member
+            ops.raise_(AttributeError, "'%s' object has no attribute '%s'" % (o.cls.__name__, name))
         return bind_descriptor(d, o, o.cls)
     if isinstance(o, SEnumValue):
         return enum_value_attr(o, name)
